@@ -196,11 +196,11 @@ def go_env():
     return e
 
 
-def build_harness(race=False):
+def build_harness(family="escape", race=False):
     """Builds harness/cmd/vh against the repository working tree (REPO, default /repo) with -tags verif."""
     os.makedirs(os.path.join(CACHE, "bin"), exist_ok=True)
     tag = "" if REPO == "/repo" else "-" + hashlib.sha1(REPO.encode()).hexdigest()[:8]
-    out_bin = os.path.join(CACHE, "bin", ("vh-race" if race else "vh") + tag)
+    out_bin = os.path.join(CACHE, "bin", family + ("-race" if race else "") + tag)
     with Lock("go" + tag):
         env = go_env()
         src = os.path.join(REPO, "go.sum")
@@ -220,12 +220,12 @@ def build_harness(race=False):
         if race:
             cmd.insert(2, "-race")
             env["CGO_ENABLED"] = "1"
-        cmd.append("./cmd/vh")
+        cmd.append("./cmd/" + family)
         rc, out = sh(["timeout", "1500"] + cmd, cwd=HARNESS, env=env, timeout=1600)
     return rc == 0, out, out_bin
 
 
-def run_family(binpath, family, inputs, shards=None, timeout=900, env=None):
+def run_family(binpath, inputs, shards=None, timeout=900, env=None):
     """Feeds JSON inputs to `vh family`, returns the list of JSON outputs (same order).
     A crashed shard yields {"crash": "..."} for its unanswered cases."""
     if not inputs:
@@ -235,7 +235,7 @@ def run_family(binpath, family, inputs, shards=None, timeout=900, env=None):
     chunks = [inputs[i::shards] for i in range(shards)]
     procs = []
     for ch in chunks:
-        p = subprocess.Popen(["timeout", str(timeout), binpath, family], stdin=subprocess.PIPE,
+        p = subprocess.Popen(["timeout", str(timeout), binpath], stdin=subprocess.PIPE,
                              stdout=subprocess.PIPE, stderr=subprocess.PIPE, text=True,
                              env=dict(os.environ, **(env or {})))
         procs.append(p)
@@ -342,6 +342,10 @@ def load_known():
     return known
 
 
+class BuildFailed(Exception):
+    pass
+
+
 # ---------------------------------------------------------------- context handed to plugins
 class Ctx:
     def __init__(self, pid, tier, seed):
@@ -357,8 +361,7 @@ class Ctx:
         self.notes = []
         self.extra = {}
         self.rule = ""
-        self.vh = None
-        self.vh_race = None
+        self.bins = {}
         self.exhaustive = False
         self.traces = 0
 
@@ -382,8 +385,15 @@ class Ctx:
         """Model and implementation disagree on this case (property not necessarily violated)."""
         self.corr_breaks.append((corr, case, detail))
 
-    def impl(self, family, inputs, **kw):
-        return run_family(self.vh, family, inputs, **kw)
+    def impl(self, family, inputs, race=False, **kw):
+        """Builds harness/cmd/<family> against the repo working tree (once per run) and runs it."""
+        k = (family, race)
+        if k not in self.bins:
+            ok, out, binp = build_harness(family, race=race)
+            if not ok:
+                raise BuildFailed(out)
+            self.bins[k] = binp
+        return run_family(self.bins[k], inputs, **kw)
 
     def budget(self, quick, thorough):
         return thorough if self.tier == "thorough" else quick
@@ -474,17 +484,14 @@ def main(plugin, argv):
             proof_detail = "coqchk rejected the compiled development: " + ck_detail[-600:]
 
     # 2. implementation under test
-    ok, out, binp = build_harness()
-    if not ok:
-        print("FAILED-CHECK property=%s: harness / repo build failed (not a violation):\n%s" % (pid, out[-3000:]))
-        sys.exit(2)
-    ctx.vh = binp
-    ctx.build_race = lambda: build_harness(race=True)
 
     # 3. plugin: cases, implementation, model, oracle
     run_error = None
     try:
         plugin.run(ctx)
+    except BuildFailed as e:
+        print("FAILED-CHECK property=%s: harness / repository build failed (not a violation):\n%s" % (pid, str(e)[-3000:]))
+        sys.exit(2)
     except Exception as e:  # machinery failure, not a violation
         import traceback
         run_error = traceback.format_exc()
